@@ -220,3 +220,12 @@ def encode(v, depth=0):
     except Exception as e:
         r = f"<repr failed {type(e).__name__}>"
     return {"t": "repr", "type": type(v).__name__, "v": r[:200]}
+
+
+def canon_value(v):
+    """hashable canonical text of a value (via encode), for counting distinct outcomes"""
+    import json
+    try:
+        return json.dumps(encode(v), sort_keys=True, default=repr)
+    except Exception:
+        return repr(type(v))
